@@ -316,6 +316,11 @@ def run(ctx):
                         e = F.expr_rv(f, defs, st['rv'])
                         if e[0] == 'binop' and e[1] in ('Add', 'Sub') and e[3] == ('const', 1):
                             steps.add(e[1])
+                for tt in [b['term']]:
+                    # count.checked_add(1) / checked_sub(1) (the refusal at the limit is the None arm)
+                    if tt['k'] == 'call' and (F.call_path(tt) or '').rsplit('::', 1)[-1] in ('checked_add', 'checked_sub') and len(tt['args']) == 2 \
+                            and F.expr(f, defs, tt['args'][1]) == ('const', 1):
+                        steps.add('Add' if (F.call_path(tt) or '').endswith('checked_add') else 'Sub')
             ok = steps == {sign}
             ctx.instance('C09.b', '%s changes the count by exactly one (%s 1)' % (fn.split('::')[-1], sign), ok=ok, site=f['at'])
             if not ok:
